@@ -276,7 +276,7 @@ pub fn campaigns(ctx: &Ctx) -> Stats {
             let arg = |c: bool| ReuseArg { leaf: 0, view: None, via_clone: c };
             Some(ReuseSeqCase { leaves: vec![LeafSpec { dims: d.clone(), vals: gen_vals(i, numel(d), VKind::Int), tracked: v & 2 == 2 }], calls: vec![ReuseCall { op: Sum(k1), args: vec![arg(false)] }, ReuseCall { op: Sum(k2), args: vec![arg(v & 1 == 1)] }, ReuseCall { op: Sum(k1), args: vec![arg(false)] }] })
         }));
-        st.merge(ctx.run_indexed("same-array-through-several-operations", t.pick(30_000, 600_000), None, |i| {
+        st.merge(ctx.run_indexed("same-array-through-several-operations", t.pick(150_000, 600_000), None, |i| {
             let z = mix(i ^ 0xC07A ^ ctx.seed.wrapping_mul(0x9E3779B1));
             let d = shapes[(z % ns) as usize].clone();
             let views = shapes_with_numel(numel(&d));
